@@ -28,7 +28,9 @@ def product_job(prop, name, groups, sc, budget, bound, family=None, mandatory=Tr
     sc.setdefault('variant', 'swar-rel')
     params = {'variants': variants or [sc['variant']], 'scenario': sc, 'groups': groups, 'prop': prop,
               'xcheck_every': xcheck_every, 'validate_every': validate_every, 'space': space_of(sc)}
-    if extra: params.update(extra)
+    if extra:
+        params.update(extra)
+        if extra.get('space_mul'): params['space'] *= extra['space_mul']
     return Job(name, fn, params, budget, bound, family=family, mandatory=mandatory, groups=groups, expect_violation=expect_violation)
 
 
